@@ -207,6 +207,34 @@ def _lock_wrapper(repo, func, expr, fdname):
     """is `expr` a call self.<m>(...) of a @contextmanager method that takes
     LOCK_EX on fd before its yield and LOCK_UN after it (Min et al.: a
     wrapper counts as the operation)"""
+    if repo is not None and isinstance(expr, ast.Call) and isinstance(
+            expr.func, ast.Name) and len(expr.args) == 1 and unparse(
+                expr.args[0]) == fdname:
+        # a context-manager class instantiated on the descriptor:
+        # __enter__ takes LOCK_EX on the fd it was given, __exit__ LOCK_UN
+        mod = getattr(func, "_module", None)
+        ci_ = repo.classes.get(f"{mod.name}.{expr.func.id}") \
+            if mod is not None else None
+        if ci_ is not None and "__enter__" in ci_.methods and \
+                "__exit__" in ci_.methods and "__init__" in ci_.methods:
+            p0 = param_names(ci_.methods["__init__"])[1:2]
+            st_ = [unparse(t) for s_ in walk_no_nested(
+                ci_.methods["__init__"]) if isinstance(s_, ast.Assign)
+                and isinstance(s_.value, ast.Name) and p0
+                and s_.value.id == p0[0] for t in s_.targets
+                if is_self_attr(t)]
+            if len(st_) == 1:
+                ex_ = [c for c, b in find("fcntl.lockf($fd, $flags, $*r)",
+                                          ci_.methods["__enter__"])
+                       if unparse(b["fd"]) == st_[0]
+                       and "LOCK_EX" in unparse(b["flags"])]
+                un_ = [c for c, b in find("fcntl.lockf($fd, $flags, $*r)",
+                                          ci_.methods["__exit__"])
+                       if unparse(b["fd"]) == st_[0]
+                       and "LOCK_UN" in unparse(b["flags"])]
+                if ex_ and un_:
+                    return True
+        return False
     if repo is None or not (isinstance(expr, ast.Call) and isinstance(
             expr.func, ast.Attribute) and isinstance(
                 expr.func.value, ast.Name) and expr.func.value.id == "self"):
@@ -378,21 +406,111 @@ def bitmap(chk, repo):
     chk.ob("R23.2", F + ".__init__", "the creator marks exactly the window "
            "it takes", ok, w[0][0] if w else f, why + ": an unmarked window "
            "is handed to a later participant as well")
-    op = tr[0].handlers[0] if tr[0].handlers else None
-    ok = op is not None and bool(find("addr = randrange(1, 1 << 9)", op,
-                                      mode="stmt")) and bool(find(
-        "addrmap[addr // 8] & 1 << addr % 8", op)) and bool(find(
-        "bytes([addrmap[addr // 8] | 1 << addr % 8])", op)) and bool(find(
-        "self.base_addr = addr << 12 + 10", op, mode="stmt"))
+    # the joiner's side and remove(), by abstract execution with stand-ins
+    # for os / fcntl / randrange: which bit is tested, marked, cleared,
+    # which window base results, and that all of it happens between
+    # LOCK_EX and LOCK_UN
+    fc = repo.cls(F)
+    init, rm = fc.methods["__init__"], fc.methods["remove"]
+
+    def world(bitmap, draws):
+        log = []
+        file_ = bytearray(bitmap)
+
+        def os_open(path, flags, *a):
+            log.append(("open", flags))
+            if not any(e[0] == "opened" for e in log):
+                log.append(("opened",))
+                raise Raised("FileExistsError: exists")
+            return 5
+
+        def pread(fd, n, off):
+            log.append(("pread", n, off))
+            return bytes(file_[off:off + n])
+
+        def pwrite(fd, data, off):
+            log.append(("pwrite", bytes(data), off))
+            file_[off:off + len(data)] = data
+            return len(data)
+        seq = list(draws)
+        os_ = Obj(None, {
+            "open": ("hook", os_open), "pread": ("hook", pread),
+            "pwrite": ("hook", pwrite),
+            "ftruncate": ("hook", lambda fd, n: log.append(("trunc", n))),
+            "write": ("hook", lambda fd, d: log.append(("write", bytes(d)))),
+            "close": ("hook", lambda fd: log.append(("close",))),
+            "remove": ("hook", lambda p_: log.append(("unlink", p_))),
+            "unlink": ("hook", lambda p_: log.append(("unlink", p_))),
+            "makedirs": ("hook", lambda *a, **k: None),
+            "O_CREAT": 64, "O_RDWR": 2, "O_EXCL": 128, "O_CLOEXEC": 524288})
+        fcntl_ = Obj(None, {
+            "lockf": ("hook", lambda fd, fl, *a: log.append(("lockf", fl))),
+            "LOCK_EX": 2, "LOCK_UN": 8, "LOCK_NB": 4})
+        funcs = {"os": os_, "fcntl": fcntl_,
+                 "randrange": ("hook", lambda *a: seq.pop(0))}
+        return log, file_, funcs
+    bad = []
+    for taken, draws in (((1,), (1, 1, 300)), ((1, 7, 8), (8, 7, 9)),
+                         ((1,), (511,)), ((1, 2, 3), (3, 2, 1, 64))):
+        bm = bytearray(64)
+        for t_ in taken:
+            bm[t_ // 8] |= 1 << (t_ % 8)
+        log, file_, funcs = world(bm, draws)
+        me = Obj(fc, {})
+        try:
+            Evaluator(repo, fc.module, fc, funcs=funcs).call_function(
+                init, [me, "/run/x/y.fmmu"], cls=fc)
+        except (Unknown, Raised) as e:
+            raise AnalysisError(f"{F}.__init__: cannot be evaluated: {e}")
+        won = [d for d in draws if d not in taken][0]
+        want = bytearray(bm)
+        want[won // 8] |= 1 << (won % 8)
+        if bytes(file_) != bytes(want) or me.fields.get("base_addr") != \
+                won << 22:
+            setbits = [i for i in range(512) if file_[i // 8] >> (i % 8) & 1]
+            bad.append(f"windows {taken} taken, draws {draws}: map marks "
+                       f"{setbits}, base_addr "
+                       f"{me.fields.get('base_addr')!r}")
+        io = [e for e in log if e[0] in ("pread", "pwrite", "trunc", "lockf")]
+        ex = [i for i, e in enumerate(io) if e == ("lockf", 2)]
+        un = [i for i, e in enumerate(io) if e == ("lockf", 8)]
+        if not ex or not un or any(not ex[0] < i < un[-1] for i, e in
+                                   enumerate(io) if e[0] != "lockf"):
+            bad.append(f"windows {taken}: bitmap accessed outside "
+                       f"LOCK_EX..LOCK_UN ({[e[0] for e in io]})")
     chk.ob("R23.2", F + ".__init__", "an opener draws until it finds an "
-           "unmarked window, marks it and uses it", ok, op or f,
-           "bit addr of the 512-bit map; base = addr << 22")
-    rm = repo.func(F + ".remove")
-    ok = bool(find("addr = self.base_addr // (4096 * 1024)", rm,
-                   mode="stmt")) and bool(find(
-        "bytes((data[0] & ~(1 << addr % 8),))", rm))
+           "unmarked window, marks it and uses it, under the lock",
+           not bad, init, "; ".join(bad[:2]) or "4 bitmaps / draw "
+           "sequences evaluated: exactly the first free draw is marked, "
+           "base = window << 22")
+    bad = []
+    for mine, others in ((5, (1, 4, 6)), (9, (8, 10, 1)), (511, (1,)),
+                         (64, (65, 1))):
+        bm = bytearray(64)
+        for t_ in (mine,) + others:
+            bm[t_ // 8] |= 1 << (t_ % 8)
+        log, file_, funcs = world(bm, ())
+        log.append(("opened",))
+        me = Obj(fc, {"fd": 5, "base_addr": mine << 22,
+                      "filename": "/run/x/y.fmmu"})
+        try:
+            Evaluator(repo, fc.module, fc, funcs=funcs).call_function(
+                rm, [me], cls=fc)
+        except (Unknown, Raised) as e:
+            raise AnalysisError(f"{F}.remove: cannot be evaluated: {e}")
+        want = bytearray(bm)
+        want[mine // 8] &= ~(1 << (mine % 8)) & 0xff
+        if bytes(file_) != bytes(want):
+            setbits = [i for i in range(512) if file_[i // 8] >> (i % 8) & 1]
+            bad.append(f"window {mine} of {sorted((mine,) + others)} "
+                       f"removed: map marks {setbits}")
+        if any(e[0] == "unlink" for e in log):
+            bad.append(f"window {mine} removed: the shared bitmap file is "
+                       f"deleted while the windows {sorted(others)} are "
+                       f"marked in it")
     chk.ob("R23.2", F + ".remove", "remove clears the participant's own "
-           "bit", ok, rm, "addr = base >> 22")
+           "bit", not bad, rm, "; ".join(bad[:2]) or "4 bitmaps evaluated: "
+           "only bit base_addr >> 22 changes")
 
 
 def teardown(chk, repo):
